@@ -12,7 +12,7 @@ fn a_site() -> OccupiedSite {
 
 /// K:k_site_basis — C08: site handles are x, y in [-1/2, 1/2] and the orientation in [0, 2 pi / rot]
 #[kani::proof]
-#[kani::unwind(8)]
+#[kani::unwind(20)]
 fn k_site_basis() {
     let site = a_site();
     let (x0, y0, a0) = (site.x.get_value(), site.y.get_value(), site.angle.get_value());
@@ -37,7 +37,7 @@ fn k_site_basis() {
 
 /// K:k_clone_site — C10: cloning a site gives fresh cells
 #[kani::proof]
-#[kani::unwind(8)]
+#[kani::unwind(20)]
 fn k_clone_site() {
     let site = a_site();
     let (x0, y0, a0) = (site.x.get_value(), site.y.get_value(), site.angle.get_value());
